@@ -192,7 +192,8 @@ impl Machine {
 
     fn ud_for(pos: usize, s: Sym) -> UserDataM {
         let text = Some(format!("ud#{}", pos));
-        let color = Some([pos as u8, (pos >> 8) as u8, 0xC1, 0x0D]);
+        // the record's position identifies it; the alpha byte walks through the boundary values (a colour with alpha 0 is a colour)
+        let color = Some([pos as u8, (pos >> 8) as u8, 0xC1, [0x0Du8, 0, 255, 0x80, 1][(pos / 3) % 5]]);
         match s {
             Sym::U0 => UserDataM { text: None, color: None },
             Sym::U1 => UserDataM { text, color: None },
